@@ -11,3 +11,4 @@ pub mod trace;
 pub mod transport;
 pub mod wiretext;
 pub mod world;
+pub mod typed;
